@@ -1,6 +1,7 @@
 SPECIFICATION Spec
 CONSTANTS
   ReserveK = {}
+  GapK = {}
   AppendK = {}
   MemberCounts = {30000, 35535, 65535, 1}
   FieldCounts = {1, 255, 256, 257, 300}
